@@ -531,7 +531,12 @@ func execute(d *Data) (*kernel.Violation, *stats) {
 		return nil
 	}
 
+	mem0 := simctx.MemEvents.Load()
 	for i, o := range d.Ops {
+		if simctx.MemEvents.Load() != mem0 {
+			st.skip = "memory pressure"
+			return nil, st
+		}
 		st.ops++
 		switch o.Kind {
 		case "start":
@@ -552,6 +557,10 @@ func execute(d *Data) (*kernel.Violation, *stats) {
 		if v := invariants(fmt.Sprintf("after operation %d %s", i, opsString([]Op{o}))); v != nil {
 			return v, st
 		}
+	}
+	if simctx.MemEvents.Load() != mem0 {
+		st.skip = "memory pressure"
+		return nil, st
 	}
 	// drain what is still live, then restart everything once more
 	for slot := 0; slot < 8; slot++ {
